@@ -1,1 +1,73 @@
-(* C16: filled in below *)
+(* Volume preservation, any dimension, linear gradients (every Gaussian target), any commutative
+   ring: the Jacobian matrices of the two shears are block triangular with identity diagonal
+   blocks, so every product of them -- in particular the matrix of the implemented leapfrog map
+   kick(h2); L x [drift(h); kick(h)]; kick(-h2) -- has determinant EXACTLY one.
+   (mathcomp matrices; H = matrix of the gradient q -> H q, i.e. the precision matrix; M = inverse
+   mass matrix; neither needs to be symmetric here.)  For a nonlinear gradient the Jacobian of a kick
+   at a point has the same block form with H the Jacobian of the gradient there; that the Jacobian of
+   a composition is the product of the Jacobians (chain rule in dimension n) is the classical fact not
+   formalised here -- it IS formalised for dimension one in P_leapfrog_jac.v. *)
+From mathcomp Require Import all_ssreflect all_algebra.
+Set Implicit Arguments.
+Unset Strict Implicit.
+Unset Printing Implicit Defensive.
+Import GRing.Theory.
+Local Open Scope ring_scope.
+
+Section ShearDet.
+Variable (R : comRingType) (n : nat).
+Implicit Types (H M : 'M[R]_n) (c : R) (q p : 'cV[R]_n).
+
+(* Jacobian of (q,p) -> (q, p - c H q)  and of  (q,p) -> (q + c M p, p)  on stacked vectors (q;p) *)
+Definition kickJ c H : 'M[R]_(n + n) := block_mx 1%:M 0 (- c *: H) 1%:M.
+Definition driftJ c M : 'M[R]_(n + n) := block_mx 1%:M (c *: M) 0 1%:M.
+
+(* they are the matrices of the shears *)
+Lemma kickJ_acts c H q p : kickJ c H *m col_mx q p = col_mx q (p - c *: (H *m q)).
+Proof.
+  rewrite /kickJ mul_block_col !mul1mx mul0mx addr0. congr col_mx.
+  by rewrite -scalemxAl scaleNr addrC.
+Qed.
+Lemma driftJ_acts c M q p : driftJ c M *m col_mx q p = col_mx (q + c *: (M *m p)) p.
+Proof. by rewrite /driftJ mul_block_col !mul1mx mul0mx add0r -scalemxAl. Qed.
+
+Lemma kickJ_det c H : \det (kickJ c H) = 1.
+Proof. by rewrite /kickJ det_lblock !det1 mulr1. Qed.
+Lemma driftJ_det c M : \det (driftJ c M) = 1.
+Proof. by rewrite /driftJ det_ublock !det1 mulr1. Qed.
+
+Inductive shear := Kick of R & 'M[R]_n | Drift of R & 'M[R]_n.
+Definition shearJ (s : shear) : 'M[R]_(n + n) :=
+  match s with Kick c H => kickJ c H | Drift c M => driftJ c M end.
+(* matrix of the composition: the first shear of the list is applied first *)
+Definition shearsJ (l : seq shear) : 'M[R]_(n + n) := foldr (fun s A => A *m shearJ s) 1%:M l.
+
+Lemma shearsJ_det l : \det (shearsJ l) = 1.
+Proof.
+  elim: l => [|s l IH] /=; first by rewrite det1.
+  rewrite det_mulmx IH mul1r. case: s => c A /=; [exact: kickJ_det | exact: driftJ_det].
+Qed.
+
+(* the implemented arrangement, h2 standing for eps/2 *)
+Definition leapfrog_shears (h h2 : R) (L : nat) H M : seq shear :=
+  Kick h2 H :: flatten (nseq L [:: Drift h M; Kick h H]) ++ [:: Kick (- h2) H].
+
+Lemma leapfrogJ_det h h2 L H M : \det (shearsJ (leapfrog_shears h h2 L H M)) = 1.
+Proof. exact: shearsJ_det. Qed.
+
+(* and the matrix does what the shears do, one after the other *)
+Definition shear_act (s : shear) (x : 'cV[R]_n * 'cV[R]_n) : 'cV[R]_n * 'cV[R]_n :=
+  match s with
+  | Kick c H => (x.1, x.2 - c *: (H *m x.1))
+  | Drift c M => (x.1 + c *: (M *m x.2), x.2)
+  end.
+Lemma shearsJ_acts l q p :
+  shearsJ l *m col_mx q p =
+  col_mx (foldl (fun x s => shear_act s x) (q, p) l).1 (foldl (fun x s => shear_act s x) (q, p) l).2.
+Proof.
+  elim: l q p => [|s l IH] q p /=; first by rewrite mul1mx.
+  rewrite -mulmxA. case: s => c A /=.
+  - by rewrite kickJ_acts IH.
+  - by rewrite driftJ_acts IH.
+Qed.
+End ShearDet.
